@@ -305,11 +305,11 @@ def _decorate_namespace_property(
         for base in bases:
             if hasattr(base, key):
                 base_property = getattr(base, key)
-                assert isinstance(
-                    base_property, property
-                ), "Expected base {} to have {} as property, but got: {}".format(
-                    base, key, base_property
-                )
+
+                # The base might have a plain attribute (*e.g.*, a class-level default ``name = None``) or a method
+                # of that name. Only the accessors of a property provide contracts to combine with.
+                if not isinstance(base_property, property):
+                    continue
 
                 if func == value.fget:
                     base_func = getattr(base, key).fget
